@@ -1,6 +1,7 @@
 """Fixes related to improving classes and object-oriented code."""
 
 import ast
+import collections
 import copy
 import re
 from typing import Collection, Iterable
@@ -150,20 +151,35 @@ def move_staticmethod_static_scope(source: str, preserve: Collection[str]) -> st
         for funcdef in parsing.iter_funcdefs(classdef):
             class_function_names.add((classdef.name, funcdef.name))
 
+    # A function that a subclass overrides must stay virtual: self.name() may mean the override.
+    subclasses = collections.defaultdict(set)
+    for _ in parsing.iter_classdefs(root):
+        for classdef in parsing.iter_classdefs(root):
+            for base in core.filter_nodes(classdef.bases, ast.Name):
+                subclasses[base.id] |= {classdef.name} | subclasses[classdef.name]
+
+    def _is_self_access(node: ast.Attribute) -> bool:
+        """self.name or cls.name, in the class that defines name"""
+        return node.value.id in {"self", "cls"} and any(
+            classdef.lineno < node.lineno <= classdef.end_lineno
+            and (classdef.name, node.attr) in class_function_names
+            for classdef in parsing.iter_classdefs(root)
+        )
+
     for node in core.walk(root, ast.Attribute):
         if (
             core.match_template(node.value, ast.Call(func=ast.Name))
             and (node.value.func.id, node.attr) in class_function_names
         ):
             class_attribute_accesses.add(node)
-        elif isinstance(node.value, ast.Name):
-            if (
-                node.value.id in {"self", "cls"}
-                or (node.value.id, node.attr) in class_function_names
-            ):
-                class_attribute_accesses.add(node)
-            else:
-                attributes_to_preserve.add(node.attr)
+        elif isinstance(node.value, ast.Name) and (
+            (node.value.id, node.attr) in class_function_names or _is_self_access(node)
+        ):
+            class_attribute_accesses.add(node)
+        else:
+            # Not known to be an access of the defining class: through a subclass, the result of
+            # a call, an element of a collection, ...
+            attributes_to_preserve.add(node.attr)
 
     static_names = {funcdef.name for funcdef in parsing.iter_funcdefs(root)} | preserve
     name_replacements = {}
@@ -181,6 +197,8 @@ def move_staticmethod_static_scope(source: str, preserve: Collection[str]) -> st
             if parsing.is_magic_method(funcdef):
                 continue
             if not set(_decorators_of_type(funcdef, "staticmethod")):
+                continue
+            if any((name, funcdef.name) in class_function_names for name in subclasses[classdef.name]):
                 continue
             new_name = funcdef.name
             if not parsing.is_private(new_name):
